@@ -28,6 +28,15 @@ CLAIMED = {
  "C11": ("differential monitor: registration program on one instance against the harness's own flat expansion on a second instance",
          "For every generated program and every method x instance path, status, handler-id trace and parameters are equal, statements are refused in both or neither, and Combo refuses a repeated verb. Exploration.",
          "The flattener is the statement's rule (prefix and handler concatenation, method expansion, AutoHead, scope restore).", "DESIGN.md §5 C11"),
+ "C12": ("reference-renderer monitor driven by the generated derivation (simultaneous substitution), inverse check against dispatched requests, naming panics",
+         "Every build through Router.URLPath, Context.URLPath and Leaf.URLPath equals the derivation-driven renderer for hostile values; requests dispatched to named routes rebuild their own path; empty/duplicate/unknown names panic. Exploration.",
+         "Names containing braces are not generated.", "DESIGN.md §5 C12"),
+ "C13": ("spy-writer trace monitor with a state-machine oracle and fault injection on the underlying writer",
+         "For every generated operation sequence (all methods, with/without Flusher, short/failed writes) the forwarded calls, every Status/Size/Written reading, every Write result and the hook discipline equal the state machine and satisfy the trace predicates. Exploration over sequences of <= 12 operations.",
+         "Before-functions are benign (no re-entrant writes).", "DESIGN.md §5 C13"),
+ "C14": ("table-oracle monitor over reflect.MakeFunc-built handlers, reflective path vs built-in fast path, custom ReturnHandler",
+         "Status, body and whether the next handler ran equal the statement's table for every generated value of every supported shape at every generated chain position, on both invocation paths. Exploration.",
+         "Non-nil zero-length values are not judged; ints are valid status codes.", "DESIGN.md §5 C14"),
 }
 
 NOT_YET = {
